@@ -263,3 +263,7 @@ TEXT["C12"].update(
     level=TEXT["C12"]["level"] + " Body-independent bounded check (Kani, real serialise_fixed as a black box): field width 4 (quick) / 16 (thorough), every value length up to width + 2, symbolic octets.")
 TEXT["C07"].update(
     level=TEXT["C07"]["level"] + " OutQuery::handle_query_internal (Verus): the reply handed back answers a query carrying exactly the client's question; a reply that arrived over UDP is used only if it echoes the id that was sent and is not truncated (otherwise the exchange is repeated over TCP); a query that arrived over TCP is forwarded over TCP.")
+
+TEXT["C20"].update(
+    level=TEXT["C20"]["level"] + " Gauges (Verus, R9 slice of DhcpService::update_metrics): the active-leases gauge is set to the count of unexpired rows and the expired-leases gauge to the count of expired rows returned by get_pool_metrics, never swapped (emission-point precondition on Gauge::set).",
+    note=TEXT["C20"]["note"].replace("update_metrics gauge wiring not under contract. ", ""))
